@@ -462,6 +462,7 @@ def install():
     return e.sched.op("is_alive", act)
 
   AT.__init__, AT.start, AT.run, AT.join, AT.is_alive = __init__, start, run, join, is_alive
+  _th.excepthook = _quiet_excepthook
   _installed["ok"] = True
   _installed["lazy_io"] = lazy_io
   return lazy_io
@@ -475,8 +476,25 @@ def decode(b, dfmt):
   return [int(v) for v in vals]
 
 
+class PlayerBoom(Exception):
+  """What the audio iterable of a "playbad" command raises inside the player thread."""
+
+
+def _raising(samples):
+  for v in samples:
+    yield v
+  raise PlayerBoom()
+
+
+def _quiet_excepthook(args, _orig=_th.excepthook):
+  if isinstance(args.exc_value, (PlayerBoom, SchedAbort)):
+    return
+  _orig(args)
+
+
 def run_schedule(wait, script, choose, dfmt="f", max_steps=4000):
-  """Runs the control script [["play", chunk_size, channels, [samples]], ["pause", t], ["resume", t],
+  """Runs the control script [["play", chunk_size, channels, [samples], dfmt?], ["playbad", chunk_size,
+  channels, [samples], k] (the iterable raises after k whole chunks), ["pause", t], ["resume", t],
   ["stop", t], ["close"]] on a fresh AudioIO(wait) under the scheduler; `choose` picks the thread at
   every step.  Returns the observation (JSON-able)."""
   lazy_io = install()
@@ -513,17 +531,21 @@ def run_schedule(wait, script, choose, dfmt="f", max_steps=4000):
             "mlock": bool(aio.lock._locked),
             "threads": [e.players.index(t) for t in list.__iter__(aio._threads)],
             "started": [e.players.index(t) for t in aio.__dict__.get("_started", [])],
-            "terminated": e.terminated, "pending": pend}
+            "terminated": e.terminated, "pending": pend,
+            "events": [list(x) for x in e.events]}   # tear-down (finally clauses of aborted threads) adds more
 
   sched.on_end = snapshot
 
   def driver():
     for cmd in script:
       k = cmd[0]
-      if k == "play":
+      if k in ("play", "playbad"):
+        fmt = cmd[4] if (k == "play" and len(cmd) > 4) else dfmt
+        data = [float(v) for v in cmd[3]] if fmt in "fd" else list(cmd[3])
+        if k == "playbad":
+          data = _raising(data[:cmd[4] * cmd[1] * cmd[2]])
         try:
-          aio.play([float(v) for v in cmd[3]] if dfmt in "fd" else list(cmd[3]),
-                   chunk_size=cmd[1], channels=cmd[2], dfmt=dfmt)
+          aio.play(data, chunk_size=cmd[1], channels=cmd[2], dfmt=fmt)
         except _th.ThreadError:
           e.events.append(["play_raise"])
       elif k in ("pause", "resume", "stop"):
@@ -557,7 +579,9 @@ def run_schedule(wait, script, choose, dfmt="f", max_steps=4000):
   for p in e.players:
     if p.__dict__.get("_c17_tid") is not None:
       _th.Thread.join(p, 1.0)
-  obs = {"status": sched.status or "hang", "steps": sched.steps, "events": e.events,
+  snap = sched.snapshot or {}
+  obs = {"status": sched.status or "hang", "steps": sched.steps,
+         "events": snap.pop("events", e.events) if isinstance(snap, dict) else e.events,
          "final": sched.snapshot}
   if status_extra:
     obs["exception"] = status_extra
